@@ -116,7 +116,7 @@ def handle (op : String) (j : Json) : Except String Json := do
     let model := Json.mkObj [("decl", S f.asDecl), ("def", S f.asDef)]
     let failed := if impl.isNull then [] else
       match (strField impl "decl", strField impl "def") with
-      | (.ok d, .ok e) => Spec.holdsC20_fn d e f.scope (!f.init.isEmpty)
+      | (.ok d, .ok e) => Spec.holdsC20_fn d e f.scope (!f.init.isEmpty) (some (f.params.map (·.ty.dflt)))
       | _ => ["impl-error"]
     pure (Json.mkObj [("model", model), ("failed", clauses failed)])
   | "cpp.constructor" =>
@@ -175,6 +175,25 @@ def handle (op : String) (j : Json) : Except String Json := do
                    (L "namespace" ++ nsS ++ L " {}") (if contents.isEmpty then [] else header ++ contents) s.toList
       | _ => ["impl-error"]
     pure (Json.mkObj [("model", S r), ("failed", clauses failed)])
+  | "cpp.blocks2" =>
+    -- two blocks of one family built WITHOUT contents; the first one's contents are then extended in place through
+    -- the getter; both are rendered: {"family":"struct|class|namespace","a":name/ids,"b":name/ids,"extend":[lines]}
+    let fam ← (← field j "family").getStr?
+    let ext ← strListField j "extend"
+    let render (x : Json) (t : TB) : Except String Str := do
+      if fam == "namespace" then pure (namespaceStr (← (do (← x.getArr?).toList.mapM str?)) t)
+      else pure (structStr fam.toList (← str? x) t)
+    let ra ← render (← field j "a") { lines := ext }
+    let rb ← render (← field j "b") {}
+    -- "around unchanged contents": a block whose contents nobody touched still renders empty; the extended one
+    -- renders exactly what was put into it
+    let failed := if impl.isNull then [] else
+      match impl.getArr? with
+      | .ok a =>
+        (if (a[0]?.bind (·.getStr?.toOption)).map String.toList = some ra then [] else ["extended-block-does-not-render-its-contents"]) ++
+        (if (a[1]?.bind (·.getStr?.toOption)).map String.toList = some rb then [] else ["contents-appeared-in-a-block-they-were-never-put-into"])
+      | _ => ["impl-error"]
+    pure (Json.mkObj [("model", Json.arr #[S ra, S rb]), ("failed", clauses failed)])
   | "cpp.misc" =>
     -- includes / member variable / access section / fqn / typedesc: correspondence only
     let kind ← (← field j "kind").getStr?
